@@ -265,7 +265,29 @@ fn check_session_rf(msgs: &[RefMsg], write_script: Vec<WriteAct>, write_default:
                     RefMsg::Report(own, s)
                 }
             };
-            tape.extend(refs::wire(&r));
+            let mut line = refs::wire(&r);
+            // now and then the reply arrives DAMAGED (a letter that is no hex digit, a digit lost, a digit doubled, a wrong
+            // checksum, the colon gone): that exchange fails with the decoding error of exactly that line, whatever went before
+            if msgs.len() <= 100 && rng.chance(1, 6) {
+                rep.count("session_replies_damaged_on_the_line");
+                let at = 1 + rng.usize(line.len() - 3);
+                match rng.below(5) {
+                    0 => line[at] = b'G',
+                    1 => {
+                        line.remove(at);
+                    }
+                    2 => {
+                        let c = line[at];
+                        line.insert(at, c);
+                    }
+                    3 => {
+                        let n = line.len();
+                        line[n - 3] = if line[n - 3] == b'0' { b'1' } else { b'0' };
+                    }
+                    _ => line[0] = b';',
+                }
+            }
+            tape.extend(line);
         }
     }
     tape.extend_from_slice(SENTINEL);
@@ -560,6 +582,41 @@ fn sessions(ctx: &Ctx, shard: usize, n: u64, rep: &mut Report) {
             }
         }
     }
+    if shard == 12 {
+        // a page flip in progress, polled, and then a poll whose reply arrives damaged (every kind of damage): the damaged
+        // line is an error — not the report before it, not anything else
+        for op in [2usize, 3] {
+            for progress in [S_LOAD_PROG, S_SHOW_PROG] {
+                for damage in 0..6usize {
+                    let msgs = vec![RefMsg::Request(3, op), RefMsg::Query(3), RefMsg::Query(3), RefMsg::Query(3)];
+                    let mut tape = refs::wire(&RefMsg::Ack(3, op));
+                    tape.extend(refs::wire(&RefMsg::Report(3, progress)));
+                    let mut line = refs::wire(&RefMsg::Report(3, if op == 2 { S_SHOWN } else { S_LOADED }));
+                    match damage {
+                        0 => line[0] = b'G',
+                        1 => line[5] = b'g',
+                        2 => {
+                            line.remove(4);
+                        }
+                        3 => line.insert(4, b'0'),
+                        4 => {
+                            let n = line.len();
+                            line.swap(n - 2, n - 1);
+                        }
+                        _ => {
+                            let n = line.len();
+                            line[n - 3] ^= 0x01;
+                        }
+                    }
+                    tape.extend(line);
+                    tape.extend(refs::wire(&RefMsg::Report(3, S_LOADED)));
+                    tape.extend_from_slice(SENTINEL);
+                    run_session(&msgs, tape, vec![], vec![], vec![], WriteAct::Accept(usize::MAX), rep);
+                    rep.count("damaged_reply_to_a_poll_of_a_flip_in_progress");
+                }
+            }
+        }
+    }
     if shard == 11 {
         // 300 data chunks in a row through one bus (a page of 4 800 bytes; more than any 8-bit tally of consecutive chunks
         // holds), then a query: chunk 256 is written like chunk 1
@@ -573,12 +630,13 @@ fn sessions(ctx: &Ctx, shard: usize, n: u64, rep: &mut Report) {
     }
     if shard == 9 || shard == 10 {
         // a reply that takes SECONDS to arrive although no single read fails or times out (a long line trickling in a
-        // byte or a few at a time): the longest legal line at 12 ms per read call is more than 6 s in all. The bus has
+        // byte or a few at a time): the longest legal line at 24 ms per read call is more than 12 s in all. The bus has
         // no business with wall-clock time beyond the port's own timeout: the reply comes back, whole, and the stream
         // stands right behind it.
         let reply = RefMsg::Unknown { addr: 3, ty: 0x42, data: rng.bytes(255) };
         let m = if shard == 9 { RefMsg::Query(3) } else { RefMsg::Request(3, 1) };
-        SLOW_READS.with(|s| s.set(Some(std::time::Duration::from_millis(12))));
+        // (24 ms per read call: 12.5 s in all; thorough tier 60 ms: half a minute)
+        SLOW_READS.with(|s| s.set(Some(std::time::Duration::from_millis(if ctx.quick() { 24 } else { 60 }))));
         let t0 = std::time::Instant::now();
         check(&plain(m, with_sentinel(refs::wire(&reply)), "reply_trickling_in_over_seconds"), rep);
         SLOW_READS.with(|s| s.set(None));
@@ -844,8 +902,9 @@ pub fn run(ctx: &Ctx) -> Outcome {
     floors.push(floor("sessions that go on after a reply was cut short (read error / end of stream mid-session)", report.get("session_read_faults_hit") > 500, report.get("session_read_faults_hit")));
     floors.push(floor("a failing read right after each kind of reply (15 reply kinds x 3 next requests x 3 positions x 4 failures)", report.get("sessions_failing_read_after_each_reply_kind") == 15 * 3 * 3 * 4, report.get("sessions_failing_read_after_each_reply_kind")));
     floors.push(floor("two ordinary exchanges after exactly k failing ones (14 counts x 5 kinds of failure)", report.get("sessions_after_k_failures") == 70, report.get("sessions_after_k_failures")));
-    floors.push(floor("replies of 523 bytes that take more than 5 s to arrive, no read failing", report.get("replies_trickling_in_over_seconds") == 2 && report.maxs.get("slowest_reply_seconds").copied().unwrap_or(0.0) > 5.0, format!("{} replies, slowest {:.1} s", report.get("replies_trickling_in_over_seconds"), report.maxs.get("slowest_reply_seconds").copied().unwrap_or(0.0))));
+    floors.push(floor("replies of 523 bytes that take more than 12 s to arrive, no read failing", report.get("replies_trickling_in_over_seconds") == 2 && report.maxs.get("slowest_reply_seconds").copied().unwrap_or(0.0) > 12.0, format!("{} replies, slowest {:.1} s", report.get("replies_trickling_in_over_seconds"), report.maxs.get("slowest_reply_seconds").copied().unwrap_or(0.0))));
     floors.push(floor("300 data chunks in a row through one bus, then a query", report.get("sessions_of_300_consecutive_data_chunks") == 1, report.get("sessions_of_300_consecutive_data_chunks")));
+    floors.push(floor("a flip in progress polled, then a poll whose reply arrives damaged (6 kinds of damage); damaged replies in random sessions", report.get("damaged_reply_to_a_poll_of_a_flip_in_progress") == 24 && report.get("session_replies_damaged_on_the_line") > 100, format!("{} / {}", report.get("damaged_reply_to_a_poll_of_a_flip_in_progress"), report.get("session_replies_damaged_on_the_line"))));
     floors.push(floor("near-twin messages (no data / 00 / one byte / more; neighbouring type or address) back to back through one bus, every ordered pair", report.get("sessions_of_near_twin_messages") == 4 * 12 * 11, report.get("sessions_of_near_twin_messages")));
     floors.push(floor("data chunks followed by chunk counts of 0 / 1 / k / 65535 through one bus", report.get("sessions_with_chunks_and_counts") == 16, report.get("sessions_with_chunks_and_counts")));
     floors.push(floor("one bus instance used for 70 000 messages", report.get("long_session_messages_checked") == 70_000, report.get("long_session_messages_checked")));
